@@ -76,6 +76,8 @@ func runTrie(seed uint64, n int, outDir string, replay string) {
 			}()
 			if rc.Chance(15) {
 				trieDerive(o, rc, ans)
+			} else if rc.Chance(12) {
+				trieGC(o, rc)
 			} else {
 				trieHistory(o, rc, ans, rc.Chance(30))
 			}
@@ -83,6 +85,113 @@ func runTrie(seed uint64, n int, outDir string, replay string) {
 		o.EndCase(fmt.Sprint(rc.U64()), true)
 	}
 	o.Close(nil)
+}
+
+// trieGC: the node store under the tries - a chain of "blocks", each changing a few keys of the previous block's trie
+// (sometimes changing nothing, or writing and deleting the same key: the same root again), committed into one
+// trie.Database whose roots are reference counted as the state processor does it (Reference(root, {}) per block,
+// Dereference of old blocks, Cap to a size, Commit of a root to disk).  T3: as long as a block holds a reference its
+// trie has exactly that block's content and root (also for a reader that opens it freshly), and a root committed to
+// disk can be read back from the disk alone.
+func trieGC(o *h.Out, rc *h.Rng) {
+	disk := rawdb.NewMemoryDatabase(log.Global)
+	tdb := trie.NewDatabase(disk)
+	type blk struct {
+		root    common.Hash
+		content map[string][]byte
+	}
+	var live []blk // blocks holding one reference each
+	cur := map[string][]byte{}
+	tr, _ := trie.New(common.Hash{}, tdb)
+	var keys [][]byte
+	for i := 0; i < 4+rc.Intn(12); i++ {
+		keys = append(keys, trKey(rc))
+	}
+	check := func(b blk, where string, db *trie.Database) {
+		t, err := trie.New(b.root, db)
+		if err != nil {
+			if len(b.content) == 0 {
+				return
+			}
+			o.Violate("c18-referenced-trie-lost", fmt.Sprintf("%s: a trie with root %x that still holds a reference cannot be opened: %v", where, b.root[:6], err))
+			return
+		}
+		for k, v := range b.content {
+			got, err := t.TryGet([]byte(k))
+			if err != nil {
+				o.Violate("c18-referenced-trie-lost", fmt.Sprintf("%s: reading key %x of the referenced trie %x: %v", where, k, b.root[:6], err))
+				return
+			}
+			if !bytes.Equal(got, v) {
+				o.Violate("c18-referenced-trie-content-changed", fmt.Sprintf("%s: key %x of the referenced trie %x reads %x, it was committed as %x", where, k, b.root[:6], got, v))
+				return
+			}
+		}
+	}
+	nblocks := 3 + rc.Intn(12)
+	for n := 0; n < nblocks; n++ {
+		switch x := rc.Intn(10); {
+		case x < 2: // nothing changes: the same root is referenced once more
+		case x < 4: // a key written and deleted again
+			k := trKey(rc)
+			if _, ok := cur[string(k)]; !ok {
+				tr.Update(k, trVal(rc))
+				tr.Delete(k)
+			}
+		default:
+			for j := 0; j < 1+rc.Intn(4); j++ {
+				k := keys[rc.Intn(len(keys))]
+				if rc.Chance(25) {
+					tr.Delete(k)
+					delete(cur, string(k))
+				} else {
+					v := trVal(rc)
+					tr.Update(k, v)
+					cur[string(k)] = v
+				}
+			}
+		}
+		root, err := tr.Commit(nil)
+		if err != nil {
+			panic(err)
+		}
+		tdb.Reference(root, common.Hash{})
+		content := map[string][]byte{}
+		for k, v := range cur {
+			content[k] = v
+		}
+		live = append(live, blk{root, content})
+		o.Count("gc:block")
+		if n > 0 && live[len(live)-1].root == live[len(live)-2].root {
+			o.Count("gc:same-root-twice")
+		}
+		// the processor continues on a trie opened at the new root
+		if tr, err = trie.New(root, tdb); err != nil {
+			o.Violate("c18-referenced-trie-lost", fmt.Sprintf("block %d: the trie just committed and referenced (root %x) cannot be opened: %v", n, root[:6], err))
+			return
+		}
+		// garbage collection as the chain does it
+		switch y := rc.Intn(10); {
+		case y < 5 && len(live) > 1:
+			i := rc.Intn(len(live) - 1) // never the newest: the chain keeps its head
+			tdb.Dereference(live[i].root)
+			live = append(live[:i], live[i+1:]...)
+			o.Count("gc:dereference")
+		case y < 6:
+			tdb.Cap(common.StorageSize(rc.Intn(2000)))
+			o.Count("gc:cap")
+		case y < 7:
+			b := live[rc.Intn(len(live))]
+			if err := tdb.Commit(b.root, false, nil); err != nil {
+				o.Violate("c18-commit-fails", fmt.Sprintf("Commit(%x): %v", b.root[:6], err))
+			}
+			check(b, "a fresh node store over the disk after Commit", trie.NewDatabase(disk))
+			o.Count("gc:commit")
+		}
+		for _, b := range live {
+			check(b, fmt.Sprintf("after block %d", n), tdb)
+		}
+	}
 }
 
 func trieDerive(o *h.Out, rc *h.Rng, ans func(string)) {
